@@ -30,7 +30,7 @@ from hpstatic.terms import (sym, intern, show, subterms, calls_in, NONE, num, kw
                             FALSE, TRUE)
 from hpstatic.xrnorm import atom_rewrite
 from . import c01
-from .common import const_list, norm_cond, beyond_guards, split_value_ite
+from .common import const_list, norm_cond, beyond_guards, split_value_ite, call_args, term_args
 
 MUTATION_TARGETS = {'holopy/core/io/io.py': ['pack_attrs', 'unpack_attrs', 'push', 'mean', 'std', 'load_average', 'save', 'load_image', 'load'], 'holopy/core/metadata.py': ['update_metadata', 'make_coords', 'data_grid', 'to_vector'], 'holopy/core/utils.py': ['updated']}
 
@@ -1159,7 +1159,7 @@ def channel_selection(check, prog):
         if t == is_none or t == grey:
             return False
         return None
-    planes = resolve(dg[0]['args'][0], colour)
+    planes = resolve(call_args(prog, dg[0]).get('arr'), colour)
     while planes[0] == 'call' and isinstance(planes[1], tuple) and planes[1][0] == 'attr' \
             and planes[1][2] == 'squeeze' and not planes[2]:
         planes = planes[1][1]
@@ -1175,7 +1175,7 @@ def channel_selection(check, prog):
                   fail_detail='for a colour image data_grid receives %s' % show(planes)[:200])
     if not ok:
         return
-    ed = resolve(dict(dg[0]['kwargs']).get('extra_dims', NONE), colour)
+    ed = resolve(call_args(prog, dg[0]).get('extra_dims', NONE), colour)
     many = [x[1] for x in subterms(ed) if x[0] == 'ite']
     labels = []
     for x in subterms(ed):
